@@ -362,7 +362,7 @@ def run(tier, seed):
     chk.assumptions = ASSUMPTIONS
     model_runs(chk, tier)
     vlib.log(f"model phase done at {time.time() - chk.t0:.0f}s")
-    num = 250 if tier == "quick" else 3000
+    num = 250 if tier == "quick" else 2500
     behaviours = vlib.generate_behaviours(
         "MC_TaExchange_gen", "MC_TaExchange_gen.cfg", chk.out, num=num,
         depth=40, seed=seed, timeout=900)
@@ -371,7 +371,7 @@ def run(tier, seed):
         timeout=900)
     chk.cov["exhaustive_short_generated"] = len(short)
     chk.rng.shuffle(short)
-    short = short[:300] if tier == "quick" else short[:9000]
+    short = short[:300] if tier == "quick" else short[:7000]
     for i, b in enumerate(behaviours + short):
         b["id"] = i
         b["keyoff"] = (seed * 211) % 1400
